@@ -102,11 +102,13 @@ def build_cases(tier):
         ("fragments_module_name", "frags", "ok"), ("fragments_module_name", "enums", "ParsingError"), ("fragments_module_name", "base_model", "ParsingError"),
         ("include_comments", "none", "ok"), ("include_comments", "stable", "ok"), ("include_comments", "timestamp", "ok"),
         ("files_to_include", [], "ok"), ("files_to_include", ["@one.py"], "ok"), ("files_to_include", ["@one.py", "@two.py"], "ok"),
+        ("files_to_include", ["@py.typed"], "ok"), ("files_to_include", ["@one.py", "@data.json", "@copy_of_schema.graphql", "@py.typed"], "ok"), ("files_to_include", ["@NOTICE"], "ok"),
         ("files_to_include", ["@client.py"], "ParsingError"), ("files_to_include", ["@one.py", "@sub/one.py"], "ParsingError"),
     ]
     for key, val, expect in devs:
         for base in ({}, {"async_client": False}, {"enable_custom_operations": True}):
-            files = {"one.py": "X = 1\n", "two.py": "Y = 2\n", "client.py": "Z = 3\n", "sub/one.py": "W = 4\n"} if key == "files_to_include" else {}
+            files = {"one.py": "X = 1\n", "two.py": "Y = 2\n", "client.py": "Z = 3\n", "sub/one.py": "W = 4\n", "py.typed": "", "data.json": '{"k": [1, 2]}\n',
+                     "copy_of_schema.graphql": "type Query { a: Int }\n", "NOTICE": "plain text, not python {\n"} if key == "files_to_include" else {}
             add("A_dev", corpus.SCHEMA_K, a_all, dict(base, **{key: val}), files=files, expect=expect,
                 tags={f"dev:{key}={val}", "deviation"} | {f"{k}={v}" for k, v in base.items()} | ({f"refusal:collision"} if expect != "ok" else set()))
     # custom operations over the input/enum-heavy schema with renamed enums / inputs modules (the builder modules import from them)
